@@ -4,7 +4,6 @@ From TL Require Import Lib.Base Model.Loc.
 
 Definition loc_actual : lquirks := {|
   q_rs_chain_start := true;
-  q_ts_decorator_start := true;
   q_ts_console_chain_start := true;
   q_fh_header_relative := true;
   q_col_const_unclamped := true |}.
